@@ -89,9 +89,43 @@ theorem levels_cnames (ncf : Nat) (rows : List (Row α)) :
   intro i _
   simp only [Function.comp, col_ckey rows i]
 
-/-- `create(...).by_group`, with the names `MetricFrame.__init__` passes, is the model's `byGroup` -/
+/-- a key made of feature values of a row without missing values has no missing component -/
+theorem keyHasNa_names (r : Row α) (h : naLevel ∉ r.cf ∧ naLevel ∉ r.sf) (ncf nsf : Nat)
+    (hcf : r.cf.length = ncf) (hsf : r.sf.length = nsf) :
+    keyHasNa (((List.range ncf).map Col.cf ++ sfNames nsf).map (colVal r)) = false := by
+  rw [names_key ncf nsf r hcf hsf]
+  simp only [keyHasNa, List.contains_eq_mem, List.mem_append, decide_eq_false_iff_not]
+  tauto
+
+theorem keyHasNa_cnames (r : Row α) (h : naLevel ∉ r.cf ∧ naLevel ∉ r.sf) (ncf : Nat) (hcf : r.cf.length = ncf) :
+    keyHasNa (((List.range ncf).map Col.cf).map (colVal r)) = false := by
+  rw [ckey_names ncf r hcf]
+  simp only [keyHasNa, List.contains_eq_mem, decide_eq_false_iff_not]
+  exact h.1
+
+/-- **`groupby(dropna=...)` is irrelevant without missing values**: whatever the flag, rows without a missing feature
+    value are grouped as by the plain `groupbyApply` -/
+theorem groupbyApplyNa_noMissing (dropna : Bool) (rows : List (Row α)) (names : List Col) (f : List α → β)
+    (h : ∀ r ∈ rows, keyHasNa (names.map (colVal r)) = false) :
+    groupbyApplyNa dropna rows names f = groupbyApply rows names f := by
+  unfold groupbyApplyNa
+  cases dropna
+  · rfl
+  · have : rows.filter (fun r => !keyHasNa (names.map (colVal r))) = rows := by
+      apply List.filter_eq_self.mpr
+      intro r hr; simp [h r hr]
+    simp only [if_true, this]
+
+/-- what `dropna=True` does: a row whose key has a missing component is in no group (it is filtered before grouping) -/
+theorem groupbyApplyNa_true (rows : List (Row α)) (names : List Col) (f : List α → β) :
+    groupbyApplyNa true rows names f =
+      groupbyApply (rows.filter (fun r => !keyHasNa (names.map (colVal r)))) names f := by
+  simp [groupbyApplyNa]
+
+/-- `create(...).by_group`, with the names `MetricFrame.__init__` passes, is the model's `byGroup`
+    (for rows without a missing feature value: `NoMissing`, the quantifier of the generators) -/
 theorem create_by_group_eq_model (nanv : β) (ncf nsf : Nat) (f : List α → β) (rows : List (Row α))
-    (hwf : WF ncf nsf rows) :
+    (hwf : WF ncf nsf rows) (hna : NoMissing rows) :
     create_by_group nanv rows f (sfNames nsf) (cfNames ncf) = byGroup nanv ncf nsf f rows := by
   have hkey : ∀ r ∈ rows, ((List.range ncf).map Col.cf ++ sfNames nsf).map (colVal r) = Row.key r :=
     fun r hr => names_key ncf nsf r (hwf r hr).1 (hwf r hr).2
@@ -101,7 +135,10 @@ theorem create_by_group_eq_model (nanv : β) (ncf nsf : Nat) (f : List α → β
     · simp
   have hlen : ((List.range ncf).map Col.cf ++ sfNames nsf).length = ncf + nsf := by simp [sfNames]
   unfold create_by_group apply_functions byGroup applyFunctions
+  have hk : ∀ r ∈ rows, keyHasNa (((List.range ncf).map Col.cf ++ sfNames nsf).map (colVal r)) = false :=
+    fun r hr => keyHasNa_names r (hna r hr) ncf nsf (hwf r hr).1 (hwf r hr).2
   simp only [Option.isNone_some, Option.getD_some, Bool.false_or, hnames, hlen, beq_iff_eq,
+    groupbyApplyNa_noMissing _ rows _ f hk,
     groupbyApply, ungrouped, fromProduct, decide_eq_true_eq]
   split
   · rfl
@@ -109,15 +146,29 @@ theorem create_by_group_eq_model (nanv : β) (ncf nsf : Nat) (f : List α → β
 
 /-- `create(...).overall` is the model's `overall` -/
 theorem create_overall_eq_model (nanv : β) (ncf nsf : Nat) (f : List α → β) (rows : List (Row α))
-    (hwf : WF ncf nsf rows) :
+    (hwf : WF ncf nsf rows) (hna : NoMissing rows) :
     create_overall nanv rows f (sfNames nsf) (cfNames ncf) = overall nanv ncf f rows := by
   unfold create_overall apply_functions overall applyFunctions cfNames
   by_cases h0 : ncf = 0
   · subst h0; simp [ungrouped]
   · have hkey : ∀ r ∈ rows, ((List.range ncf).map Col.cf).map (colVal r) = Row.ckey r :=
       fun r hr => ckey_names ncf r (hwf r hr).1
+    have hk : ∀ r ∈ rows, keyHasNa (((List.range ncf).map Col.cf).map (colVal r)) = false :=
+      fun r hr => keyHasNa_cnames r (hna r hr) ncf (hwf r hr).1
     simp only [h0, if_false, Option.isNone_some, Option.getD_some, Bool.false_or, List.length_map,
-      List.length_range, beq_iff_eq, groupbyApply, fromProduct, decide_eq_true_eq]
+      List.length_range, beq_iff_eq, groupbyApplyNa_noMissing _ rows _ f hk,
+      groupbyApply, fromProduct, decide_eq_true_eq]
     rw [grouped_congr _ Row.ckey f rows hkey, levels_cnames ncf rows]
+
+/-- the call in `MetricFrame.__init__` -/
+theorem init_by_group_eq_model (nanv : β) (ncf nsf : Nat) (f : List α → β) (rows : List (Row α))
+    (hwf : WF ncf nsf rows) (hna : NoMissing rows) :
+    init_by_group nanv rows f nsf ncf = byGroup nanv ncf nsf f rows :=
+  create_by_group_eq_model nanv ncf nsf f rows hwf hna
+
+theorem init_overall_eq_model (nanv : β) (ncf nsf : Nat) (f : List α → β) (rows : List (Row α))
+    (hwf : WF ncf nsf rows) (hna : NoMissing rows) :
+    init_overall nanv rows f nsf ncf = overall nanv ncf f rows :=
+  create_overall_eq_model nanv ncf nsf f rows hwf hna
 
 end FrameSrc
